@@ -425,18 +425,12 @@ func c08Bubble(c c08Case) (res c08Result) {
 			}
 		}
 		if timePassed {
-			cnt := census.Count("kmipserver.(*Server).Serve", "kmipserver.(*Server).handleConn", "kmipserver.(*conn).readloop", "kmipserver.(*conn).writeloop")
-			if cnt["kmipserver.(*Server).Serve"] != 1 {
-				r := fail("accept-loop-gone", "step %d: %d accept loops\n%s", step, cnt["kmipserver.(*Server).Serve"], census.Dump("kmipserver.(*Server).Serve("))
-				return &r
-			}
+			// only an excess is a violation: fewer goroutines than connections is an implementation choice, and a dead
+			// accept loop is caught by the probe connection below
+			cnt := census.Count("kmipserver.(*Server).handleConn", "kmipserver.(*conn).readloop", "kmipserver.(*conn).writeloop")
 			for _, k := range []string{"kmipserver.(*Server).handleConn", "kmipserver.(*conn).readloop", "kmipserver.(*conn).writeloop"} {
-				if cnt[k] > live || cnt[k] < live-uncertain {
-					what := "leaked"
-					if cnt[k] < live {
-						what = "missing"
-					}
-					r := fail("goroutines-"+what+":"+k[strings.LastIndexByte(k, '.')+1:], "step %d: %d goroutines in %s for %d live connections\n%s", step, cnt[k], k, live, census.Dump(k))
+				if cnt[k] > live {
+					r := fail("goroutines-leaked:"+k[strings.LastIndexByte(k, '.')+1:], "step %d: %d goroutines in %s for %d live connections\n%s", step, cnt[k], k, live, census.Dump(k))
 					return &r
 				}
 			}
@@ -759,7 +753,7 @@ func TestC08Availability(t *testing.T) {
 	const name = "TestC08Availability"
 	rec := evid.New("C08", name, "state-machine scripts over 1..4+ client connections to a real kmipserver.Server on an in-memory listener inside a testing/synctest bubble (fake clock, quiescence detection): connect, whole request (1..3 items with outcomes ok / typed error / plain error / panic with string|error|int|Stringer|nil / slow honouring or ignoring its context), "+
 		"pipelined requests, partial message + completion, garbage (random bytes, oversize announcement, nonsense frame, truncated request), correctly framed but undecodable message (9 kinds), half close, close (also while a handler or a response write is in progress), stalled reader, and closing exactly when the response is about to be handed to the write loop (yield-point hook); "+
-		"after every step: responses match the model one-to-one and in order, census of accept/handleConn/readloop/writeloop goroutines equals 1 + 3 per live connection, a probe connection is served; at the end nothing remains; "+
+		"after every step: responses match the model one-to-one and in order, census of accept/handleConn/readloop/writeloop goroutines never exceeds the number of live connections (per loop kind), a probe connection is served; at the end nothing remains; "+
 		"non-trivial = >= 2 connections and >= 1 fault; distinct by script").Attach(t)
 	if rp := evid.LoadReplay(name); rp != nil {
 		var c c08Case
